@@ -14,7 +14,8 @@ if [ -n "$demo" ]; then
   (cd "$wt" && PYTHONPATH="$wt" timeout 120 /venv/bin/python "$demo" >/tmp/demo.out 2>&1); echo "demo exit with patch: $? ($(tail -1 /tmp/demo.out | cut -c1-150))"
   (cd /repo && PYTHONPATH=/repo timeout 120 /venv/bin/python "$demo" >/tmp/demo.out 2>&1); echo "demo exit on /repo: $?"
 fi
-out=$(cd "$here" && VERIF_REPO="$wt" timeout 900 bin/check "$prop" --tier quick 2>&1 | grep -v '^KNOWN-FINDING' | tail -2)
+# (the verdict lines, not the tail: a changed tree may make the interpreter print noise at exit, after the verdict)
+out=$(cd "$here" && VERIF_REPO="$wt" timeout 900 bin/check "$prop" --tier quick 2>&1 | grep -E "^(VIOLATION |$prop |INTERNAL)" | tail -2)
 echo "$out"
 git -C /repo worktree remove --force "$wt"
 (cd "$here" && bin/check "$prop" --tier quick >/dev/null 2>&1)
